@@ -68,74 +68,119 @@ def build(cfg, style):
     return s, grid, agents
 
 
+class ResetSpy:
+    """The RNG / trace spies of one placement-state reset, usable around any code that resets a
+    placement state (this module's run_resets, the end-to-end run of gen_E2E3): random.shuffle,
+    numpy.random.choice and numpy.random.randint are wrapped (whatever generator is installed
+    underneath still produces the values), every draw is recorded in `rec` and checked to be
+    admissible for its candidate set; Grid.place is wrapped to record the trace of successful
+    placements, generate_maze to record the maze.  `idx` maps agent ids to indices."""
+
+    def __init__(self, rows, cols, idx):
+        self.rows, self.cols, self.idx = rows, cols, idx
+        self.n = len(idx)
+        self.rec = {}
+        self._saved = None
+        self.clear()
+
+    def clear(self):
+        self.rec.clear()
+        self.rec.update(shuffle=[], start=[], maze=[], choice=[-1] * self.n, log=[], mazeout=None)
+
+    def draws(self):
+        rec = self.rec
+        return [rec["shuffle"], rec["start"], rec["maze"], rec["choice"]]
+
+    def install(self):
+        import abmarl.sim.gridworld.utils as gu
+        from abmarl.sim.gridworld.grid import Grid
+        assert self._saved is None
+        rec, idx, rows, cols = self.rec, self.idx, self.rows, self.cols
+        o_shuffle, o_choice, o_randint = pyrandom.shuffle, np.random.choice, np.random.randint
+        o_maze, o_place = gu.generate_maze, Grid.place
+        self._saved = (o_shuffle, o_choice, o_randint, o_maze, o_place)
+
+        def spy_shuffle(x, *a, **k):
+            before = [p[0] for p in x]
+            o_shuffle(x, *a, **k)
+            after = [p[0] for p in x]
+            if sorted(before) != sorted(after):
+                raise Inadmissible("shuffle")
+            rec["shuffle"] = [idx[i] for i in after]
+
+        def spy_choice(a, size=None, *args, **k):
+            res = o_choice(a, size, *args, **k)
+            fr = sys._getframe(1)
+            ag = fr.f_locals["var_agent_to_place"]
+            v = int(res.item())
+            if v not in [int(x) for x in a]:
+                raise Inadmissible("choice")
+            rec["choice"][idx[ag.id]] = v
+            return res
+
+        def spy_randint(low, high=None, *args, **k):
+            res = o_randint(low, high, *args, **k)
+            fr = sys._getframe(1)
+            if fr.f_code.co_name == "generate_maze":
+                walls = fr.f_locals["unvisited_walls"]
+                if not (low == 0 and 0 <= int(res) < len(walls)):
+                    raise Inadmissible("randint maze")
+                c = walls[int(res)]
+                rec["maze"].append([int(c[0]), int(c[1])])
+            else:
+                r = [int(res[0]), int(res[1])]
+                if not (0 <= r[0] < rows and 0 <= r[1] < cols):
+                    raise Inadmissible("randint start")
+                rec["start"] = r
+            return res
+
+        def spy_maze(*a, **k):
+            m = o_maze(*a, **k)
+            rec["mazeout"] = [[int(v) for v in row] for row in m]
+            return m
+
+        def spy_place(self_, agent, ndx):
+            ok = o_place(self_, agent, ndx)
+            if ok:
+                t = tuple(ndx)
+                rec["log"].append([idx[agent.id], int(t[0]), int(t[1])])
+            return ok
+
+        pyrandom.shuffle, np.random.choice, np.random.randint = spy_shuffle, spy_choice, spy_randint
+        gu.generate_maze, Grid.place = spy_maze, spy_place
+
+    def restore(self):
+        import abmarl.sim.gridworld.utils as gu
+        from abmarl.sim.gridworld.grid import Grid
+        if self._saved is not None:
+            (pyrandom.shuffle, np.random.choice, np.random.randint,
+             gu.generate_maze, Grid.place) = self._saved
+            self._saved = None
+
+    def __enter__(self):
+        self.install()
+        return self
+
+    def __exit__(self, *exc):
+        self.restore()
+        return False
+
+
 def run_resets(cfg, style, nres, seed):
     """Returns (draws per reset, outcome per reset)."""
-    import abmarl.sim.gridworld.utils as gu
-    from abmarl.sim.gridworld.grid import Grid
     state, grid, agents = build(cfg, style)
     rows, cols = cfg[1], cfg[2]
     n = len(agents)
     idx = {f"a{i}": i for i in range(n)}
-    rec = {}
-
-    o_shuffle, o_choice, o_randint = pyrandom.shuffle, np.random.choice, np.random.randint
-    o_maze, o_place = gu.generate_maze, Grid.place
-
-    def spy_shuffle(x, *a, **k):
-        before = [p[0] for p in x]
-        o_shuffle(x, *a, **k)
-        after = [p[0] for p in x]
-        if sorted(before) != sorted(after):
-            raise Inadmissible("shuffle")
-        rec["shuffle"] = [idx[i] for i in after]
-
-    def spy_choice(a, size=None, *args, **k):
-        res = o_choice(a, size, *args, **k)
-        fr = sys._getframe(1)
-        ag = fr.f_locals["var_agent_to_place"]
-        v = int(res.item())
-        if v not in [int(x) for x in a]:
-            raise Inadmissible("choice")
-        rec["choice"][idx[ag.id]] = v
-        return res
-
-    def spy_randint(low, high=None, *args, **k):
-        res = o_randint(low, high, *args, **k)
-        fr = sys._getframe(1)
-        if fr.f_code.co_name == "generate_maze":
-            walls = fr.f_locals["unvisited_walls"]
-            if not (low == 0 and 0 <= int(res) < len(walls)):
-                raise Inadmissible("randint maze")
-            c = walls[int(res)]
-            rec["maze"].append([int(c[0]), int(c[1])])
-        else:
-            r = [int(res[0]), int(res[1])]
-            if not (0 <= r[0] < rows and 0 <= r[1] < cols):
-                raise Inadmissible("randint start")
-            rec["start"] = r
-        return res
-
-    def spy_maze(*a, **k):
-        m = o_maze(*a, **k)
-        rec["mazeout"] = [[int(v) for v in row] for row in m]
-        return m
-
-    def spy_place(self, agent, ndx):
-        ok = o_place(self, agent, ndx)
-        if ok:
-            t = tuple(ndx)
-            rec["log"].append([idx[agent.id], int(t[0]), int(t[1])])
-        return ok
+    spy = ResetSpy(rows, cols, idx)
+    rec = spy.rec
 
     draws, outs = [], []
     pyrandom.seed(seed)
     np.random.seed(seed % (2 ** 32))
-    pyrandom.shuffle, np.random.choice, np.random.randint = spy_shuffle, spy_choice, spy_randint
-    gu.generate_maze, Grid.place = spy_maze, spy_place
-    try:
+    with spy:
         for _ in range(nres):
-            rec.clear()
-            rec.update(shuffle=[], start=[], maze=[], choice=[-1] * n, log=[], mazeout=None)
+            spy.clear()
             try:
                 state.reset()
                 kind = 0
@@ -147,12 +192,9 @@ def run_resets(cfg, style, nres, seed):
             pos = [[int(a.position[0]), int(a.position[1])] for a in
                    (agents[f"a{i}"] for i in range(n))] if kind == 0 else []
             order = [idx[i] for i in state.agents.keys()]
-            draws.append([rec["shuffle"], rec["start"], rec["maze"], rec["choice"]])
+            draws.append(spy.draws())
             outs.append([kind, rec["log"], cells, pos,
                          [] if rec["mazeout"] is None else [rec["mazeout"]], order])
-    finally:
-        pyrandom.shuffle, np.random.choice, np.random.randint = o_shuffle, o_choice, o_randint
-        gu.generate_maze, Grid.place = o_maze, o_place
     return draws, outs
 
 
